@@ -933,7 +933,7 @@ func (r *hpRun) judge() {
 
 func TestHolePunch(t *testing.T) {
 	name := t.Name()
-	hx.Check(t, 6000, 250000, 0, func(rt *rapid.T) {
+	hx.Check(t, 6000, 180000, 0, func(rt *rapid.T) {
 		runHP(t, rt, name, drawHPScenario(rt))
 	})
 }
